@@ -103,9 +103,15 @@ class Module:
         """
         Returns a list of all parameters in the module
         """
-        params = list(self._parameters.values())
+        params = []
+        seen = set()
+        candidates = list(self._parameters.values())
         for m in self.submodules():
-            params += m.parameters()
+            candidates += m.parameters()
+        for p in candidates: # a parameter shared between names or submodules is reported once
+            if id(p) not in seen:
+                seen.add(id(p))
+                params.append(p)
         return params
     
     def submodules(self) -> list['Module']:
